@@ -132,6 +132,7 @@ thread_local! {
 
 pub fn install_panic_hook() {
     std::panic::set_hook(Box::new(|info| {
+        let _hg = alloc::in_hook();
         let loc = info
             .location()
             .map(|l| {
